@@ -170,6 +170,19 @@ HELPERS = [
                                         [("echo", ("bin", "+", L("string", "w"), ("var", "k"))), ("assign", "k", ("bin", "+", ("var", "k"), L("int", 1))),
                                          ("if", ("bin", ">", ("var", "k"), ("var", "n")), [("block", [("ret", ("var", "k"))])], None)]),
                                        ("ret", ("un", "-", L("int", 1)))]),
+    # a return inside a for body ends the loop there and then: neither the increment nor the condition is evaluated again (headers with
+    # a call in the increment, a call in the condition, a condition that would fail for the next index)
+    ("step", [("int", "v")], "int", [("ret", ("bin", "+", ("var", "v"), L("int", 1)))]),
+    ("lt", [("int", "p"), ("int", "q")], "boolean", [("ret", ("bin", "<", ("var", "p"), ("var", "q")))]),
+    ("ffind", [("int", "n")], "int", [("for", ("decl", "int", "i", L("int", 0)), ("bin", "<", I, L("int", 5)), ("assignx", "i", ("call", "step", [I])),
+                                           [("if", ("bin", "==", I, ("var", "n")), [("ret", ("bin", "*", I, L("int", 10)))], None)]),
+                                      ("ret", ("un", "-", L("int", 1)))]),
+    ("cfind", [("int", "n")], "int", [("for", ("decl", "int", "i", L("int", 0)), ("call", "lt", [I, L("int", 5)]), ("assignx", "i", ("bin", "+", I, L("int", 1))),
+                                           [("if", ("bin", "==", I, ("var", "n")), [("ret", ("bin", "+", ("bin", "*", I, L("int", 10)), L("int", 1)))], None)]),
+                                      ("ret", ("un", "-", L("int", 2)))]),
+    ("lastidx", [("int[]", "v")], "int", [("for", ("decl", "int", "i", L("int", 0)), ("bin", ">=", ("idx", "v", I), ("un", "-", L("int", 50))), ("assignx", "i", ("bin", "+", I, L("int", 1))),
+                                               [("if", ("bin", "==", I, L("int", 2)), [("ret", ("bin", "+", ("idx", "v", I), L("int", 2)))], None)]),
+                                          ("ret", ("un", "-", L("int", 3)))]),
     ("half", [("int", "n")], "float", [("ret", ("bin", "/", ("var", "n"), L("int", 2)))]),
     ("wide", [("long", "n")], "long", [("ret", ("bin", "*", ("var", "n"), L("long", 3)))]),
 ]
@@ -197,6 +210,9 @@ ATOMS = [
     ("assign", "x", ("bin", "%", X, Y)),
     ("assign", "x", ("call", "trace", [Y])),
     ("assign", "y", ("call", "wtrace", [X])),
+    ("assign", "x", ("call", "ffind", [Y])),
+    ("assign", "y", ("call", "cfind", [X])),
+    ("assign", "x", ("call", "lastidx", [("var", "a")])),
 ]
 
 
